@@ -938,7 +938,7 @@ func c08Applicable(seq []string, sym string) bool {
 func TestVerifC08Random(t *testing.T) {
 	run := vk.Start(t, "C08", "random")
 	defer run.Finish()
-	nh := run.Pick(60, 1000)
+	nh := run.Pick(60, 800)
 	run.Rule(fmt.Sprintf("per backend %d seeded histories of 10-40 events over two clients and three nodes, registration lifetime 5 min: connect on a random node (reconnects leave the old connection to its node), heartbeat, re-login, late cleanup of the oldest/newest abandoned connection, close of the current connection (transport end / Disconnect command / swept by the node's real stale sweeper), late heartbeats on abandoned connections, tunnel-type connections; all nodes looked up for both clients after every event; distinct = backend x event-kind sequence of a history containing a reconnect or a close", nh))
 	for _, be := range c08BackendNames {
 		r := run.Rand("hist|" + be)
